@@ -345,3 +345,60 @@ func hasRealReferrers(v ssa.Value) bool {
 	}
 	return false
 }
+
+// ErrPropagates: in fn (and its closures), the error result of every call matching calleeGlob
+// flows — directly or through wrapping calls (fmt.Errorf, errors.Join/Wrap…) — into a return
+// statement of the function, i.e. a failure of the callee cannot be swallowed.
+func (c *Ctx) ErrPropagates(rule string, fn *ssa.Function, calleeGlob string) {
+	if fn == nil {
+		return
+	}
+	fname := c.P.Name(fn)
+	wrap := []string{"fmt.Errorf", "errors.Join", "errors.Wrap*", "github.com/pkg/errors.*", "*.wrap*Error*", "*.wrapErr*"}
+	n := 0
+	var bad []string
+	for _, f := range WithClosures(fn) {
+		for _, b := range f.Blocks {
+			for _, in := range b.Instrs {
+				call, ok := in.(*ssa.Call)
+				if !ok || !(glob(calleeGlob, calleeName(&call.Call)) || glob(calleeGlob, renderCall(&call.Call, 0, nil))) {
+					continue
+				}
+				res := call.Call.Signature().Results()
+				if res.Len() == 0 || !isErrorType(res.At(res.Len()-1).Type()) {
+					continue
+				}
+				n++
+				var errv ssa.Value = call
+				if res.Len() > 1 {
+					errv = nil
+					for _, r := range *call.Referrers() {
+						if ex, ok := r.(*ssa.Extract); ok && ex.Index == res.Len()-1 {
+							errv = ex
+						}
+					}
+				}
+				reaches := false
+				if errv != nil {
+					for _, e := range forwardFlow(errv, wrap) {
+						if e.Kind == "return" {
+							reaches = true
+						}
+					}
+				}
+				if !reaches {
+					bad = append(bad, c.P.InstrPos(in))
+				}
+			}
+		}
+	}
+	construct := fname + "#err-propagates:" + calleeGlob
+	switch {
+	case n == 0:
+		c.add("errdisc", rule, construct, Undecided, c.P.Pos(fn.Pos()), "no error-returning call matches "+calleeGlob+" (vacuous)")
+	case len(bad) > 0:
+		c.add("errdisc", rule, construct, Violated, bad[0], fmt.Sprintf("the error of %s is not propagated to any return of %s (swallowed or only logged) at %s", calleeGlob, fname, strings.Join(bad, ", ")))
+	default:
+		c.add("errdisc", rule, construct, Held, c.P.Pos(fn.Pos()), fmt.Sprintf("%d call(s); the error result reaches a return", n))
+	}
+}
